@@ -7,6 +7,7 @@ from hypothesis import strategies as st
 from ..core import check, lib, raises, Guard, Violation
 from ..lib import binary_sequence, electrical_signal
 from ..runner import Part
+from ..textoracle import run_campaign, eval_text
 
 RULE = ("bit strings (exhaustive up to length 12, pairs up to 5+5), container forms, slices and expression trees over {+,~,slice} "
         "evaluated against a Python-list model; threshold comparisons against numpy; distinct = sha1 of the case")
@@ -482,5 +483,7 @@ PARTS = [
     Part("slices", e_slice, s_slice, quick=1500, thorough=10000, shards=8, rule="non-trivial: word longer than 2"),
     Part("trees", e_tree, s_tree, quick=1200, thorough=10000, shards=16, rule="non-trivial: >=2 concatenations and >=1 inversion"),
     Part("reject", e_reject, s_reject, quick=500, thorough=3000, shards=4, rule="every rejected construction/operand class"),
+    Part("ctor_atheris", eval_text("binseq"), kind="custom", custom=lambda ctx, n: run_campaign(ctx, "binseq", n), quick=0, thorough=150000, shards=4,
+         rule="coverage-guided (atheris/libFuzzer) campaigns on the str constructor: valid uint8 0/1 1-D data or ValueError/TypeError; thorough tier only"),
     Part("compare", e_cmp, s_cmp(), quick=1500, thorough=10000, shards=8, rule="non-trivial: noise component present or electrical_signal threshold"),
 ]
